@@ -201,6 +201,12 @@ pub fn run(ctx: &Ctx) -> i32 {
             }
         }
     }
+    // very large symbols (the whole 16-bit range of T): intermediate-symbol slabs of several MiB
+    for &(K, T) in &[(100usize, 40000usize), (10, 65535), (60, 65528), (300, 20000), (26, 32769), (101, 4096), (1000, 5000)] {
+        if !ctx.args.quick() || K * T <= 6_000_000 {
+            cases.push((K, T));
+        }
+    }
     par_for(cases.len(), |i| {
         if ctx.too_many_violations() {
             return;
@@ -216,7 +222,7 @@ pub fn run(ctx: &Ctx) -> i32 {
     let nobj = ctx.args.pick(300, 5000);
     par_for(nobj, |i| run_object_case(ctx, ctx.seed(), i as u64, &rel));
     ctx.eval(nobj);
-    ctx.cov("symbol_sizes_covered", J::s("every T in 1..=200 and 255,256,257,1023,1024,1025,1280,1316"));
+    ctx.cov("symbol_sizes_covered", J::s("every T in 1..=200 and 255,256,257,1023,1024,1025,1280,1316, plus large symbols 4096..65535 (slabs of several MiB)"));
     ctx.cov("additivity_checks", J::i(rel[0].load(Relaxed)));
     ctx.cov("scaling_checks", J::i(rel[1].load(Relaxed)));
     ctx.cov("byte_column_checks", J::i(rel[2].load(Relaxed)));
